@@ -19,7 +19,7 @@ RULE = (
     "non-trivial when it has at least 2 notes; distinct by canonical JSON of (text, expected notes)."
 )
 ASSUMPTIONS = ["the generator renders cells to text faithfully", "fractions.Fraction is exact"]
-MONITORS = ["decode", "ordering_ops", "str_identity", "columns", "via_chart"]
+MONITORS = ["decode", "repeat_iteration", "ordering_ops", "str_identity", "columns", "via_chart"]
 REQUIRED = ["odd_rows", "rows_192", "rows_above_192", "keysound_shifts_later_column", "three_players", "crlf",
             "same_position_pair", "cross_player_pair", "corpus_chart"]
 
@@ -131,7 +131,21 @@ def check(ctx, case):
                 seen.add(key)
 
     nd = NoteData(text)
+    # every iteration of the object yields all notes: abandon one early, nest two, then take the full pass twice
+    ctx.mon("repeat_iteration")
+    it = iter(nd)
+    head = [n for _, n in zip(range(ctx.evaluations % 4), it)]
+    del it
+    nested = 0
+    for i, a in enumerate(nd):
+        if i >= 3:
+            break
+        nested += sum(1 for _ in nd)
     notes = list(nd)
+    again = list(nd)
+    if again != notes or head != notes[: len(head)] or (notes and nested != min(3, len(notes)) * len(notes)):
+        ctx.violation("decode:iteration-depends-on-earlier-iterations",
+                      {"first_full": len(notes), "second_full": len(again), "nested_total": nested, "head": len(head)})
     ctx.mon("decode")
     ok = len(notes) == len(exp)
     bad = None
